@@ -538,7 +538,7 @@ def run(ctx):
                     if has_cycle(c):
                         ctx.count("inputs_with_pointer_cycle")
                     mon.check(c, origin="corpus")
-            for i in ctx.cases(40000, 3000000):
+            for i in ctx.cases(40000, 2000000):
                 if mon.nonterm >= 3:
                     ctx.count("stopped_after_nontermination")
                     break
